@@ -1,6 +1,7 @@
 package srvfix
 
 import (
+	"errors"
 	"net"
 
 	"github.com/facebookincubator/dns/dnsrocks/db"
@@ -18,8 +19,36 @@ type Tracker struct {
 	closed bool
 }
 
-// Registry lists the tracked backends of one execution.
-type Registry struct{ all []*Tracker }
+// Registry lists the tracked backends of one execution and the lifecycle faults seen on them: a call on a
+// backend that was already closed (on a real CDB that is a read of unmapped memory, on RocksDB a freed handle:
+// the process would die) is recorded and NOT executed, a second Close likewise.
+type Registry struct {
+	all    []*Tracker
+	Faults []string
+}
+
+func (t *Tracker) dead(op string) bool {
+	if t.closed {
+		t.reg.Faults = append(t.reg.Faults, "backend used after close: "+op)
+		return true
+	}
+	return false
+}
+
+var errClosed = errors.New("verif: backend already closed")
+
+// finder tracks the closest-key finder handed out by a tracked backend.
+type finder struct {
+	t     *Tracker
+	inner db.ClosestKeyFinder
+}
+
+func (f finder) FindClosestKey(key []byte, c db.Context) ([]byte, error) {
+	if f.t.dead("FindClosestKey") {
+		return nil, errClosed
+	}
+	return f.inner.FindClosestKey(key, c)
+}
 
 // Track wraps inner.
 func (r *Registry) Track(inner db.DBI) *Tracker {
@@ -47,24 +76,54 @@ func (r *Registry) CloseAll(normalEnd bool) {
 func (t *Tracker) NewContext() db.Context  { return t.inner.NewContext() }
 func (t *Tracker) FreeContext(c db.Context) { t.inner.FreeContext(c) }
 func (t *Tracker) Find(key []byte, c db.Context) ([]byte, error) {
+	if t.dead("Find") {
+		return nil, errClosed
+	}
 	return t.inner.Find(key, c)
 }
 func (t *Tracker) ForEach(key []byte, f func([]byte) error, c db.Context) error {
+	if t.dead("ForEach") {
+		return errClosed
+	}
 	return t.inner.ForEach(key, f, c)
 }
 func (t *Tracker) FindMap(domain, mtype []byte, c db.Context) ([]byte, error) {
+	if t.dead("FindMap") {
+		return nil, errClosed
+	}
 	return t.inner.FindMap(domain, mtype, c)
 }
 func (t *Tracker) GetLocationByMap(ipnet *net.IPNet, mapID []byte, c db.Context) ([]byte, uint8, error) {
+	if t.dead("GetLocationByMap") {
+		return nil, 0, errClosed
+	}
 	return t.inner.GetLocationByMap(ipnet, mapID, c)
 }
-func (t *Tracker) GetStats() map[string]int64 { return t.inner.GetStats() }
-func (t *Tracker) ClosestKeyFinder() db.ClosestKeyFinder { return t.inner.ClosestKeyFinder() }
+func (t *Tracker) GetStats() map[string]int64 {
+	if t.dead("GetStats") {
+		return map[string]int64{}
+	}
+	return t.inner.GetStats()
+}
+func (t *Tracker) ClosestKeyFinder() db.ClosestKeyFinder {
+	f := t.inner.ClosestKeyFinder()
+	if f == nil {
+		return nil
+	}
+	return finder{t, f}
+}
 func (t *Tracker) Close() error {
+	if t.closed {
+		t.reg.Faults = append(t.reg.Faults, "backend closed twice")
+		return errClosed
+	}
 	t.closed = true
 	return t.inner.Close()
 }
 func (t *Tracker) Reload(path string) (db.DBI, error) {
+	if t.dead("Reload") {
+		return nil, errClosed
+	}
 	n, err := t.inner.Reload(path)
 	if err != nil || n == nil {
 		return n, err
